@@ -27,7 +27,7 @@ fn bears_identity(h: &Header, own: PortIdentity, inst: &InstanceView) -> bool {
 
 /// Sync: only from Master; sequence id +1 mod 2^16; one event send with the Sync context; sync timer re-armed.
 #[kani::proof]
-#[kani::unwind(9)]
+#[kani::unwind(34)]
 #[kani::stub(PortActionIterator::from, PortActionIterator::verif_recording_from)]
 #[kani::stub(Message::serialize, Message::verif_recording_serialize)]
 #[kani::stub(crate::time::Interval::as_core_duration, stub_as_core_duration)]
@@ -64,7 +64,7 @@ fn c10_send_sync() {
 /// Follow_Up for a reported Sync transmit timestamp: same sequence id, preciseOriginTimestamp =
 /// WireTimestamp::from(ts), correctionField = subnano(ts); exactly one general send; only from Master.
 #[kani::proof]
-#[kani::unwind(9)]
+#[kani::unwind(34)]
 #[kani::stub(PortActionIterator::from, PortActionIterator::verif_recording_from)]
 #[kani::stub(Message::serialize, Message::verif_recording_serialize)]
 #[kani::stub(<WireTimestamp as core::convert::From<Time>>::from, stub_wire_from_time)]
@@ -105,7 +105,7 @@ fn delay_req_correction_in_range(h: &Header) -> bool {
 /// Delay_Resp: echoes requester identity and sequence id; receiveTimestamp = WireTimestamp::from(ts),
 /// correction = request correction + subnano(ts); only from Master; one general send.
 #[kani::proof]
-#[kani::unwind(9)]
+#[kani::unwind(34)]
 #[kani::stub(PortActionIterator::from, PortActionIterator::verif_recording_from)]
 #[kani::stub(Message::serialize, Message::verif_recording_serialize)]
 #[kani::stub(<WireTimestamp as core::convert::From<Time>>::from, stub_wire_from_time)]
@@ -152,7 +152,7 @@ fn c10_delay_resp_for_delay_req() {
 /// Pdelay_Resp: echoes requester and sequence id, requestReceiptTimestamp = WireTimestamp::from(ts) (to the
 /// nanosecond), request correction copied; one event send (link-local) with the PDelayResp context.
 #[kani::proof]
-#[kani::unwind(9)]
+#[kani::unwind(34)]
 #[kani::stub(PortActionIterator::from, PortActionIterator::verif_recording_from)]
 #[kani::stub(Message::serialize, Message::verif_recording_serialize)]
 #[kani::stub(<WireTimestamp as core::convert::From<Time>>::from, stub_wire_from_time)]
@@ -186,7 +186,7 @@ fn c10_pdelay_resp_for_pdelay_req() {
 
 /// Pdelay_Resp_Follow_Up for the reported transmit time of the response.
 #[kani::proof]
-#[kani::unwind(9)]
+#[kani::unwind(34)]
 #[kani::stub(PortActionIterator::from, PortActionIterator::verif_recording_from)]
 #[kani::stub(Message::serialize, Message::verif_recording_serialize)]
 #[kani::stub(<WireTimestamp as core::convert::From<Time>>::from, stub_wire_from_time)]
